@@ -237,7 +237,11 @@ func (g *progGen) emitUnit(op uint8, cb bool, allowIE bool) int {
 	case op == 0x12 || op == 0x1a:
 		g.emit16(0x11, g.pick(1))
 	case op == 0xe2 || op == 0xf2:
-		g.emit(0x0e, g.hramOffset(allowIE))
+		if g.ioPtr && op == 0xe2 && g.r.Chance(1, 5) {
+			g.emit(0x0e, 0x46) // the store starts an OAM DMA transfer: a store like any other, in its documented cycle
+		} else {
+			g.emit(0x0e, g.hramOffset(allowIE))
+		}
 	case op == 0xe9:
 		// JP (HL): target is the instruction after it plus some filler
 		g.emit16(0x21, g.here()+3+1+2+uint16(len(g.preOp)))
@@ -279,6 +283,8 @@ func (g *progGen) emitUnit(op uint8, cb bool, allowIE bool) int {
 		g.emit16(op, g.pick(2))
 	case op == 0xea || op == 0xfa:
 		g.emit16(op, g.pick(1))
+	case op == 0xe0 && g.ioPtr && g.r.Chance(1, 5):
+		g.emit(op, 0x46) // the store starts an OAM DMA transfer: a store like any other, in its documented cycle
 	case op == 0xe0 || op == 0xf0:
 		g.emit(op, g.hramOffset(allowIE))
 	case op == 0x31:
